@@ -10,7 +10,7 @@ CON_TYPES = ['LINKED', 'PERMUTATION', 'UNORDERED', 'UNORDERED_NOREPL']
 
 
 @st.composite
-def sel_spec(draw, min_nodes=3, max_nodes=12, max_incompat=3, p_extra=True, max_opts=4):
+def sel_spec(draw, min_nodes=3, max_nodes=12, max_incompat=3, p_extra=True, max_opts=4, dag_rich=False):
     n = draw(st.integers(min_nodes, max_nodes))
     n_start = draw(st.sampled_from([1, 1, 1, 2])) if n >= 4 else 1
     names = [f'n{i}' for i in range(n)]
@@ -26,7 +26,7 @@ def sel_spec(draw, min_nodes=3, max_nodes=12, max_incompat=3, p_extra=True, max_
             modes += ['add_opt', 'add_opt', 'add_opt']
         mode = draw(st.sampled_from(modes))
         if mode == 'derive':
-            parent = draw(st.sampled_from(placed))
+            parent = draw(st.sampled_from(placed[-4:] if dag_rich else placed))
             edges.append([parent, nm])
         elif mode == 'new_choice':
             origin = draw(st.sampled_from(placed))
@@ -36,14 +36,25 @@ def sel_spec(draw, min_nodes=3, max_nodes=12, max_incompat=3, p_extra=True, max_
             choices[i]['opts'].append(nm)
         placed.append(nm)
 
+    if dag_rich:
+        # many forward cross links: nodes with several derivers (diamonds), no cycles from these
+        for _ in range(draw(st.integers(2, 7))):
+            i = draw(st.integers(0, len(placed)-2))
+            j = draw(st.integers(i+1, len(placed)-1))
+            u, v = placed[i], placed[j]
+            if v in start or [u, v] in edges or any(c['origin'] == u and v in c['opts'] for c in choices):
+                continue
+            edges.append([u, v])
     if p_extra:
         # extra derivation edges (cross links, cycles)
         n_extra = draw(st.integers(0, 3))
         for _ in range(n_extra):
             u = draw(st.sampled_from(placed))
             v = draw(st.sampled_from(placed))
-            if u == v or [u, v] in edges:
+            if [u, v] in edges:
                 continue
+            if u == v and (u in start or draw(st.integers(0, 2)) != 0):
+                continue   # self-referencing derivation edges (cycles of length 1) are kept in one third of the draws
             if any(c['origin'] == u and v in c['opts'] for c in choices):
                 continue
             edges.append([u, v])
@@ -326,3 +337,56 @@ def two_conn_spec(draw, max_nodes=7):
     spec = draw(sel_spec(min_nodes=3, max_nodes=max_nodes, max_incompat=0, p_extra=False))
     spec = draw(add_conns(spec, max_choices=2, min_choices=2, small=True, start_bias=0, allow_grp=draw(st.booleans())))
     return spec
+
+
+@st.composite
+def layered_spec(draw, max_incompat=3):
+    """Layered derivation DAG: several choices on the start node, intermediate nodes with one or two derivers (diamonds,
+    nodes shared between branches), deeper nodes derived from those, optionally a nested choice; incompatibilities between
+    arbitrary non-start nodes. Complements sel_spec, whose derived nodes mostly have a single deriver."""
+    nodes = {'n0': {'k': 'gen'}}
+    edges, choices = [], []
+    k = [1]
+
+    def new():
+        nm = f'n{k[0]}'
+        k[0] += 1
+        nodes[nm] = {'k': 'gen'}
+        return nm
+
+    l1 = []
+    for i in range(draw(st.integers(2, 3))):
+        opts = [new() for _ in range(draw(st.integers(2, 3)))]
+        choices.append({'origin': 'n0', 'opts': opts})
+        l1 += opts
+    l2 = []
+    for _ in range(draw(st.integers(2, 4))):
+        nm = new()
+        parents = draw(st.lists(st.sampled_from(l1+l2), min_size=1, max_size=2, unique=True))
+        for p_ in parents:
+            edges.append([p_, nm])
+        l2.append(nm)
+    l3 = []
+    for _ in range(draw(st.integers(1, 3))):
+        nm = new()
+        parents = draw(st.lists(st.sampled_from(l2+l3), min_size=1, max_size=2, unique=True))
+        for p_ in parents:
+            edges.append([p_, nm])
+        l3.append(nm)
+    if draw(st.booleans()):
+        origin = draw(st.sampled_from(l2+l3))
+        opts = [new() for _ in range(draw(st.integers(1, 3)))]
+        if draw(st.booleans()):
+            opts.append(draw(st.sampled_from([n for n in l2+l3 if n != origin])))
+        choices.append({'origin': origin, 'opts': opts})
+    others = [n for n in nodes if n != 'n0']
+    incompat = []
+    for _ in range(draw(st.integers(1, max_incompat))):
+        u = draw(st.sampled_from(others))
+        v = draw(st.sampled_from(others))
+        if u != v and [u, v] not in incompat and [v, u] not in incompat:
+            incompat.append([u, v])
+    ids = draw(st.permutations([f'c{i}' for i in range(len(choices))]))
+    return {'salt': draw(st.sampled_from([0, 0, 1, 2, 3])), 'nodes': nodes, 'edges': edges,
+            'choices': [{'id': ids[i], 'origin': c['origin'], 'opts': c['opts']} for i, c in enumerate(choices)],
+            'incompat': incompat, 'start': ['n0'], 'conns': [], 'cons': []}
